@@ -212,6 +212,27 @@ func cmdCheck(args []string) int {
 	}
 	defer os.RemoveAll(tmp)
 
+	// solve: all obligations in parallel; those left undecided (timeout / unknown) where a proof is expected are then
+	// tried once more with three times the budget and few of them at a time, so that a loaded machine does not turn a
+	// 7-second proof into an alarm
+	solve := func(os []*Obligation, agree bool) {
+		solveAll(os, tmp, timeout, 16, agree)
+		var again []*Obligation
+		for _, o := range os {
+			if o.Kind != "known-finding" && o.Expect == "unsat" && (o.Result == "timeout" || o.Result == "unknown") {
+				o.Detail = "first attempt (" + fmt.Sprint(timeout) + " ms, 16 at a time): " + o.Result + "; " + o.Detail
+				o.Result = ""
+				again = append(again, o)
+			}
+		}
+		if len(again) > 0 && len(again) <= 24 {
+			solveAll(again, tmp, 3*timeout, 4, false)
+		} else {
+			for _, o := range again {
+				o.Result = "timeout"
+			}
+		}
+	}
 	// verify: generate the obligations of one function; when the loop invariants name a local the function no longer
 	// has (a harmless rename), try the function's other locals in its place (rebind.go)
 	verify := func(fc *FuncContract) *FuncResult {
@@ -227,7 +248,7 @@ func cmdCheck(args []string) int {
 				}
 				os2 = append(os2, o)
 			}
-			solveAll(os2, tmp, timeout, 16, false)
+			solve(os2, false)
 			for _, o := range os2 {
 				if !(o.Result == o.Expect || (o.Expect == "sat" && (o.Result == "unknown" || o.Result == "timeout"))) {
 					return false
@@ -312,7 +333,7 @@ func cmdCheck(args []string) int {
 		}
 	}
 	collect()
-	solveAll(obls, tmp, timeout, 16, agree)
+	solve(obls, agree)
 	// a function whose loops were moved into (or out of) helpers without a contract: when it fails with the loop clauses
 	// attached by ordinal, attach them in program order and try again (remap.go); kept only if everything discharges
 	oblOK := func(o *Obligation) bool {
@@ -348,7 +369,7 @@ func cmdCheck(args []string) int {
 				}
 				os2 = append(os2, o)
 			}
-			solveAll(os2, tmp, timeout, 16, false)
+			solve(os2, false)
 			for _, o := range os2 {
 				if !oblOK(o) {
 					good = false
